@@ -202,7 +202,8 @@ class ScriptedPhaseDiagnoser(diagnoses_lib.BasePhaseDiagnoser):
     self.ctx.ev('diag', self.spec['name'], phase_record.name, n)
     if out == 'raise':
       raise OtherExc('diagnoser %s' % self.spec['name'])
-    return [htf.Diagnosis(RESULTS[r], 'scripted', is_failure=bool(f)) for (r, f) in out]
+    internal = bool(self.spec.get('internal'))
+    return [htf.Diagnosis(RESULTS[r], 'scripted', is_failure=bool(f), is_internal=internal and not f) for (r, f) in out]
 
 
 class ScriptedTestDiagnoser(diagnoses_lib.BaseTestDiagnoser):
